@@ -94,7 +94,7 @@ def instrument(col, log, fault):
     b._write = write
 
 
-def run_session(col, kind, fault, puts, cut=1, reads=()):
+def run_session(col, kind, fault, puts, cut=1, reads=(), in_body=None):
     """run one instrumented session; returns dict(trace, exc, listed_at_start, read_values)"""
     log: list = []
     instrument(col, log, fault)
@@ -104,6 +104,8 @@ def run_session(col, kind, fault, puts, cut=1, reads=()):
         with cm:
             log.append("body")
             out["listed"] = sorted(col.keys())
+            if in_body is not None:
+                out["in_body"] = in_body()
             if kind == "writing":
                 for n, (k, v) in enumerate(puts):
                     if fault == "atBody" and n == cut:
@@ -159,11 +161,12 @@ for line in sys.stdin:
     if not parts:
         continue
     cmd, path = parts[0], parts[1]
+    tmo = float(parts[2]) if len(parts) > 2 else 2.0
     try:
         c = cols.get(path)
         if c is None:
             c = cols[path] = Collection(path, UkvCollectionBackend, readonly=False)
-        cm = c.writing(timeout=2.0) if cmd == "w" else c.reading(timeout=2.0)
+        cm = c.writing(timeout=tmo) if cmd == "w" else c.reading(timeout=tmo)
         with cm:
             items = sorted((k, c[k].hex()) for k in c.keys())
         print("ok " + ";".join(f"{k.encode().hex() or '-'}={v or '-'}" for k, v in items), flush=True)
@@ -187,11 +190,11 @@ class Probe:
         self.p = subprocess.Popen([common.repo_python(), "-c", PROBE_SRC], stdin=subprocess.PIPE, stdout=subprocess.PIPE,
                                   stderr=subprocess.DEVNULL, text=True, env=env)
 
-    def ask(self, mode: str, path: Path, timeout: float = 15.0):
+    def ask(self, mode: str, path: Path, timeout: float = 15.0, lock_timeout: float = 2.0):
         import select
         if self.p is None or self.p.poll() is not None:
             self.start()
-        self.p.stdin.write(f"{mode} {path}\n")
+        self.p.stdin.write(f"{mode} {path} {lock_timeout}\n")
         self.p.stdin.flush()
         r, _, _ = select.select([self.p.stdout], [], [], timeout)
         if not r:
